@@ -31,7 +31,7 @@ type Profile struct {
 var baseWeights = map[string]float64{
 	"new": 8, "newwith": 4, "bnew": 4, "bbatch": 2, "bbatchq": 1, "badd": 2,
 	"rm": 6, "xchg": 10, "assign": 3, "set": 6, "get": 2, "view": 3, "alive": 2,
-	"relset": 5, "relxchg": 3, "relget": 1,
+	"relset": 5, "relxchg": 3, "relget": 1, "relcycle": 0.6, "layoutcross": 0.05,
 	"bxchg": 3, "bsetrel": 2, "brm": 1, "bbig": 0.05,
 	"qscan": 3, "qopen": 1, "creg": 1, "cunreg": 0.4, "cscan": 2,
 	"reset": 0.3, "dumpload": 0.2, "reg": 0.5, "res": 1, "listen": 0.4, "stats": 1, "locked": 0.5,
@@ -85,6 +85,8 @@ func profile(name string) Profile {
 		p.minComps, p.maxComps = 0, ecs.MaskTotalBits
 		mul(10, "reg")
 		mul(4, "qopen")
+		mul(8, "relcycle")
+		mul(40, "layoutcross")
 		p.length = [2]int{30, 90}
 	case "dump": // C17
 		mul(15, "dumpload")
@@ -118,6 +120,8 @@ type G struct {
 	nextK  int // next type key to register
 	nWorlds int
 	flushEach bool
+	digestNext bool
+	bystanders []int
 	stats  map[string]int
 	npanic int
 	nops   int
@@ -133,9 +137,34 @@ func (g *G) emit(cmd string, args ...string) string {
 	if g.flushEach {
 		g.out.Flush() // the OP line must be on disk before the implementation runs it
 	}
+	before := ""
+	if g.digestNext && singleEntityCmd[cmd] {
+		before = g.x.digest()
+	}
+	g.digestNext = false
+	// cross-talk probe (C19): an operation on this world must not change another world
+	other, otherBefore := -1, ""
+	if len(g.bystanders) > 0 && cmd != "NEWWORLD" && g.rng.Float64() < 0.4 {
+		other = g.bystanders[g.rng.Intn(len(g.bystanders))]
+		if other != g.wk {
+			otherBefore = g.h.worlds[other].digest() + g.h.worlds[other].aliveDigest()
+		}
+	}
+	defer func() {
+		if otherBefore != "" {
+			if after := g.h.worlds[other].digest() + g.h.worlds[other].aliveDigest(); after != otherBefore {
+				fmt.Fprintf(g.out, "CHK %d FAIL %s on W%d changed world W%d\n", g.idx-1, cmd, g.wk, other)
+			}
+		}
+	}()
 	lines := g.h.run(g.idx, g.wk, cmd, args)
 	for _, l := range lines {
 		fmt.Fprintln(g.out, l)
+	}
+	if before != "" && before != "unavailable" && len(lines) > 0 && strings.HasSuffix(lines[0], " panic") {
+		if after := g.x.digest(); after != "unavailable" && after != before {
+			fmt.Fprintf(g.out, "CHK %d FAIL state changed by the failed call %s %s\n", g.idx, cmd, strings.Join(args, " "))
+		}
 	}
 	g.idx++
 	g.nops++
@@ -414,7 +443,15 @@ func (g *G) bspec(forceRel bool) (ids []int, a [3]string, rel int) {
 	return
 }
 
+// operations that address (or create) a single entity, a resource or a filter registration:
+// when they fail, every observable must be as before (C10)
+var singleEntityCmd = map[string]bool{"RM": true, "XCHG": true, "GET": true, "SET": true, "MASK": true, "HAS": true,
+	"RELSET": true, "RELGET": true, "RELXCHG": true, "VIEW": true, "NEW": true, "NEWWITH": true, "BNEW": true, "BADD": true,
+	"ASSIGN": true, "RESADD": true, "RESRM": true, "CREG": true, "CUNREG": true}
+
 func (g *G) illegalOp() bool {
+	g.digestNext = true
+	defer func() { g.digestNext = false }()
 	al := g.alive()
 	dead := g.deadSlots()
 	n := len(g.x.comps)
@@ -422,7 +459,7 @@ func (g *G) illegalOp() bool {
 		return false
 	}
 	anyID := func() string { return strconv.Itoa(g.rng.Intn(n)) }
-	switch g.rng.Intn(16) {
+	switch g.rng.Intn(17) {
 	case 0: // dead entity
 		if len(dead) == 0 {
 			return false
@@ -625,6 +662,34 @@ func (g *G) illegalOp() bool {
 		return false
 	case 12: // builder target without relation
 		g.emit("BNEW", "-", "-", "-", "s0")
+	case 16: // builder (with or without values) whose relation is not among its components, or is no relation, plus a target
+		if n == 0 {
+			return false
+		}
+		rel := g.rng.Intn(n)
+		var ids []int
+		for i := 0; i < n; i++ {
+			if (i != rel || !g.x.comps[i].isRel) && !g.x.comps[i].isRel && g.rng.Intn(3) == 0 && len(ids) < 3 {
+				ids = append(ids, i)
+			}
+		}
+		if g.x.comps[rel].isRel && contains(ids, rel) {
+			return false
+		}
+		vals := "-"
+		if len(ids) > 0 && g.rng.Intn(2) == 0 {
+			vs := make([]int, len(ids))
+			for i := range ids {
+				vs[i] = 1 + g.rng.Intn(255)
+			}
+			vals = strIDs(vs)
+		}
+		tg := "s0"
+		if len(al) > 0 && g.rng.Intn(2) == 0 {
+			tg = sl(g.pick(al))
+		}
+		g.emit("BNEW", strIDs(ids), vals, strconv.Itoa(rel), tg)
+		g.emit("STATS")
 	case 13: // exchange with relation but nothing to do
 		if len(al) == 0 || len(g.relIDs()) == 0 {
 			return false
@@ -790,6 +855,58 @@ func (g *G) legalOp(kind string) bool {
 		}
 		s := g.pick(cands)
 		g.emit("RELSET", sl(s), strconv.Itoa(g.relOf(g.maskOf(s))), g.pickTarget(s))
+	case "relcycle":
+		// a relation table is created for a new target, emptied, and retired by the death of
+		// its target; it waits in the node's free list until another target re-uses it
+		rels := g.relIDs()
+		if len(rels) == 0 {
+			return false
+		}
+		rel := g.pick(rels)
+		rt := g.emit("NEW", "-")
+		if !strings.HasPrefix(rt, "e ") {
+			return true
+		}
+		tgt := strings.Fields(rt)[1]
+		ids := []int{rel}
+		for i := range g.x.comps {
+			// mostly the bare relation: the same node, hence the same parked tables, again and again
+			if g.rng.Intn(5) < 2 && !g.x.comps[i].isRel && g.rng.Intn(4) == 0 && len(ids) < 3 {
+				ids = append(ids, i)
+			}
+		}
+		sort.Ints(ids)
+		rc := g.emit("BNEW", strIDs(ids), "-", strconv.Itoa(rel), tgt)
+		if !strings.HasPrefix(rc, "e ") {
+			return true
+		}
+		child := strings.Fields(rc)[1]
+		g.emit("VIEW", child)
+		if g.rng.Intn(4) != 0 {
+			g.emit("RM", child)
+			g.emit("RM", tgt)
+		}
+	case "layoutcross":
+		// tables parked in a free list while the registry grows across a layout chunk boundary
+		// (16, 32, ...), then re-used: Has/Get with the late IDs must still say "absent"
+		n := len(g.x.comps)
+		next := (n/16 + 1) * 16
+		if len(g.relIDs()) == 0 || next >= g.p.maxComps || next-n > 14 {
+			return false
+		}
+		for k := 0; k < 2+g.rng.Intn(4); k++ {
+			g.legalOp("relcycle")
+		}
+		for len(g.x.comps) <= next {
+			before := len(g.x.comps)
+			g.register()
+			if len(g.x.comps) == before {
+				break
+			}
+		}
+		for k := 0; k < 2+g.rng.Intn(4); k++ {
+			g.legalOp("relcycle")
+		}
 	case "relget":
 		var cands []int
 		for _, s := range al {
@@ -1103,8 +1220,9 @@ func (g *G) loadIntoNewWorld() {
 	oldComps := g.x.comps
 	g.nWorlds++
 	g.wk = g.nWorlds
-	capincs := []int{1, 2, 3, 8, 128}
-	g.emit("NEWWORLD", strconv.Itoa(capincs[g.rng.Intn(len(capincs))]), strconv.Itoa(g.rng.Intn(3)), strconv.Itoa(ecs.MaskTotalBits))
+	capincs := []int{1, 1, 2, 3, 8, 128}
+	mainCap := capincs[g.rng.Intn(len(capincs))]
+	g.emit("NEWWORLD", strconv.Itoa(mainCap), strconv.Itoa(g.rng.Intn(3)), strconv.Itoa(ecs.MaskTotalBits))
 	g.x = g.h.worlds[g.wk]
 	g.cached = nil
 	g.nRes = 0
@@ -1128,6 +1246,25 @@ func (g *G) loadIntoNewWorld() {
 	g.emit("LOAD", ds)
 	g.emit("_DUMPCMP", ds)
 	g.emit("STATS")
+	if g.rng.Float64() < 0.35 {
+		// a bystander: a second world loaded from the SAME dump, never touched again; whatever
+		// is done to the first one must not show in it (C19)
+		mainWk, mainX, mainCached, mainRes := g.wk, g.x, g.cached, g.nRes
+		g.nWorlds++
+		g.wk = g.nWorlds
+		byCap := mainCap // same configuration: whatever the first world does with the dump, this one does too
+		if g.rng.Intn(3) == 0 {
+			byCap = capincs[g.rng.Intn(len(capincs))]
+		}
+		g.emit("NEWWORLD", strconv.Itoa(byCap), strconv.Itoa(g.rng.Intn(3)), strconv.Itoa(ecs.MaskTotalBits))
+		g.x = g.h.worlds[g.wk]
+		for _, c := range oldComps {
+			g.emit("REG", strconv.Itoa(c.key), strconv.Itoa(b01(c.isRel)), strconv.Itoa(b01(c.zs)))
+		}
+		g.emit("LOAD", ds)
+		g.bystanders = append(g.bystanders, g.wk)
+		g.wk, g.x, g.cached, g.nRes = mainWk, mainX, mainCached, mainRes
+	}
 }
 
 // after a Q-variant batch: usually iterate the returned query at once
@@ -1187,8 +1324,23 @@ func (g *G) history(wk int, nops int) {
 	}
 	g.nextK = g.rng.Intn(40) * numShapes
 	// keys are consecutive from a random offset: all shapes appear
+	parked := false
 	for i := 0; i < ncomps; i++ {
 		g.register()
+		if g.p.name == "registry" && len(g.relIDs()) > 0 {
+			// relation tables parked in a free list just before a layout chunk boundary, re-used after it
+			if i%16 == 14 && g.rng.Intn(5) < 3 {
+				for k := 0; k < 2+g.rng.Intn(4); k++ {
+					g.legalOp("relcycle")
+				}
+				parked = true
+			} else if parked && i%16 == 1+g.rng.Intn(2) {
+				for k := 0; k < 3+g.rng.Intn(4); k++ {
+					g.legalOp("relcycle")
+				}
+				parked = false
+			}
+		}
 		if g.p.name == "registry" && (i%16 == 0 || i%16 == 15 || g.rng.Intn(6) == 0) {
 			// tables created at many registry sizes: the newest ID must be usable at once
 			res := g.emit("NEWWITH", g.vals([]int{i}))
